@@ -47,9 +47,11 @@ IsCaseEdge(u, v) == Edge(u, v).cs # "-"
    built to run it, i.e. as the destination of a dag (it belongs to no other scope) - unless it is also an ordinary
    dependency of some node that this dag can see (a successor that is not a one-of head, over an edge that is not a case
    edge, itself visible): then it is an ordinary node of the dag *)
-RECURSIVE VisNode(_, _, _)
-VisNode(n, oneof, dest) == ~A(n).is_child \/ n = dest
-                           \/ \E v \in Succs(n) : ~A(v).is_head /\ ~IsCaseEdge(n, v) /\ VisNode(v, oneof, dest)
+(* the destination needs n as an ordinary dependency: a way from n to dest that uses neither a case edge (a case is run
+   only if it is selected) nor the edge from a one-of child to its head (a child is run only if the one-of tries it) *)
+RECURSIVE Needed(_, _)
+Needed(n, dest) == n = dest \/ \E v \in Succs(n) : ~IsCaseEdge(n, v) /\ ~(A(n).is_child /\ A(v).is_head) /\ Needed(v, dest)
+VisNode(n, oneof, dest) == ~A(n).is_child \/ n = dest \/ Needed(n, dest)
 VEdge(u, v, filtered, oneof, dest) ==
     HasEdge(u, v) /\ (~filtered \/ (~IsCaseEdge(u, v) /\ VisNode(u, oneof, dest) /\ VisNode(v, oneof, dest)))
 
@@ -274,7 +276,7 @@ NodeFin(S, t) ==
         THEN (* skip unlocking the descendants: event, unlock itself, `return` (swallows an in-flight exception) *)
              Continue(Ret([Notify(SetEvent(S, n), n) EXCEPT !.tasks[t].exc = <<"none">>], t, <<"none">>), t)
         ELSE LET S1 == Notify(NotifyDesc(SetEvent(S, n), n), "run")
-                 S2 == IF n = D.dest THEN Notify(S1, n) ELSE S1
+                 S2 == Notify(S1, n)          \* unlock itself: the dag n is the destination of, a one-of that found n already running
              IN  IF S2.tasks[t].exc # <<"none">> THEN Unwind(Pop(S2, t), t)
                  ELSE Continue(Ret(S2, t, <<"none">>), t)
 
